@@ -45,18 +45,12 @@ def main():
         before = set(os.listdir(rdir)) if os.path.isdir(rdir) else set()
         ev = os.path.join(core.VERIF_DIR, 'evidence', pid + '.json')
         evsave = open(ev).read() if os.path.exists(ev) else None
-        env = dict(os.environ, VFW_REPO=tmp)
+        env = dict(os.environ, VFW_REPO=tmp, VFW_REPLAY_DIR=os.path.join(tmp, '_replays'), VFW_EVIDENCE_DIR=os.path.join(tmp, '_evidence'))
         p = subprocess.run([sys.executable, '-m', 'vfw.run', pid, '--tier', tier], cwd=core.VERIF_DIR, env=env,
                            capture_output=True, text=True)
         out = p.stdout + p.stderr
         lines = [l for l in out.splitlines() if 'VIOLATION' in l or 'signature=' in l or 'HARNESS' in l or l.startswith(pid)]
         print('\n'.join(lines[:12]))
-        if os.path.isdir(rdir):
-            for fn in set(os.listdir(rdir)) - before:
-                os.remove(os.path.join(rdir, fn))
-        if evsave is not None:
-            with open(ev, 'w') as f:
-                f.write(evsave)
         print('DETECTED' if p.returncode == 1 else ('HARNESS-ERROR rc=2' if p.returncode == 2 else 'MISSED'))
         return 0
     finally:
